@@ -135,3 +135,50 @@ Proof.
       rewrite Z.mod_small by exact Hq. symmetry. apply Z.mod_small.
       assert (2 ^ (64 - shift) <= 2 ^ c) by (apply Z.pow_le_mono_r; lia). lia.
 Qed.
+
+(* the packed encoding of a signed digit (d >= 0: d itself; d < 0: (-d-1) | msb) is read
+   back exactly by the chunk processor, for every digit in [-2^(c-1), 2^(c-1) - 1] *)
+Definition encode_digit (c d : Z) : Z :=
+  if d =? 0 then 0 else if 0 <=? d then d else Z.lor (- d - 1) (2 ^ (c - 1)).
+
+Lemma lor_disjoint_add a n : 0 <= n -> 0 <= a < 2 ^ n -> Z.lor a (2 ^ n) = a + 2 ^ n.
+Proof.
+  intros Hn Ha.
+  assert (Hland : Z.land a (2 ^ n) = 0).
+  { apply Z.bits_inj'. intros m Hm. rewrite Z.land_spec, Z.bits_0.
+    destruct (Z.eq_dec m n) as [->|Hne].
+    - replace (Z.testbit a n) with false; [reflexivity|]. symmetry. apply Z.testbit_false; [lia|].
+      rewrite Z.div_small by lia. reflexivity.
+    - rewrite (Z.pow2_bits_false n m) by lia. apply andb_false_r. }
+  rewrite <- Z.lxor_lor by exact Hland. symmetry. apply Z.add_nocarry_lxor, Hland.
+Qed.
+
+Theorem signed_digit_roundtrip c d : 2 <= c -> - 2 ^ (c - 1) <= d <= 2 ^ (c - 1) - 1 ->
+  signed_of_bits c (encode_digit c d) = d /\ 0 <= encode_digit c d < 2 ^ c.
+Proof.
+  intros Hc Hd. pose proof (pow2_pos' (c - 1) ltac:(lia)) as Hh.
+  assert (E2 : 2 ^ c = 2 * 2 ^ (c - 1)) by (replace c with (Z.succ (c - 1)) at 1 by lia; rewrite Z.pow_succ_r by lia; reflexivity).
+  unfold encode_digit, signed_of_bits.
+  destruct (Z.eqb_spec d 0) as [->|Hnz]; [cbn; split; [reflexivity|lia]|].
+  destruct (Z.leb_spec 0 d) as [Hpos|Hneg].
+  - (* positive: below half, msb clear *)
+    destruct (Z.eqb_spec d 0); [lia|].
+    assert (Hl : Z.land d (2 ^ (c - 1)) = 0).
+    { apply Z.bits_inj'. intros m Hm. rewrite Z.land_spec, Z.bits_0.
+      destruct (Z.eq_dec m (c - 1)) as [->|Hne].
+      - replace (Z.testbit d (c - 1)) with false; [reflexivity|]. symmetry. apply Z.testbit_false; [lia|].
+        rewrite Z.div_small by lia. reflexivity.
+      - rewrite (Z.pow2_bits_false (c - 1) m) by lia. apply andb_false_r. }
+    rewrite Hl. cbn [Z.eqb]. split; [reflexivity|lia].
+  - (* negative: e = -d-1 in [0, half), encoded e + half *)
+    set (e := - d - 1). assert (He : 0 <= e < 2 ^ (c - 1)) by (unfold e; lia).
+    rewrite (lor_disjoint_add e (c - 1)) by lia.
+    destruct (Z.eqb_spec (e + 2 ^ (c - 1)) 0); [lia|].
+    assert (Hl : Z.land (e + 2 ^ (c - 1)) (2 ^ (c - 1)) <> 0).
+    { rewrite <- (lor_disjoint_add e (c - 1)) by lia. rewrite Z.land_lor_distr_l, Z.land_diag.
+      intros H0. apply Z.lor_eq_0_iff in H0. lia. }
+    destruct (Z.eqb_spec (Z.land (e + 2 ^ (c - 1)) (2 ^ (c - 1))) 0); [contradiction|].
+    split; [|lia].
+    rewrite land_ones' by lia. rewrite Z.add_mod by lia. rewrite Z.mod_same by lia.
+    rewrite Z.add_0_r, Z.mod_mod by lia. rewrite Z.mod_small by lia. unfold e. lia.
+Qed.
